@@ -17,8 +17,10 @@ Inductive action := Allow | Deny | Other.          (* Other: any value that is n
                dict / keys view, an object that only defines __iter__, a one-shot generator)
      PAll      an instance of AllPermissionsList or of a subclass (pyramid.authorization.ALL_PERMISSIONS, the legacy
                pyramid.security.ALL_PERMISSIONS, a fresh instance, an application subclass)
-     PAtom     any other object WITHOUT __iter__ (an int, None, ...): equal to no permission name *)
-Inductive perms := PAll | PNames (l : list text) | PStr (s : text) | PAtom.
+     PAtom     any other object WITHOUT __iter__ (an int, None, ...): equal to no permission name
+     PEq s     an application object WITHOUT __iter__ that is no str but whose __eq__ says it EQUALS the name s (and only s):
+               e.g. a permission constant of a class with a str-aware __eq__ *)
+Inductive perms := PAll | PNames (l : list text) | PStr (s : text) | PAtom | PEq (s : text).
 Record ace := mkAce { act : action; who : text; what : perms }.
 Definition acl := list ace.
 (* lineage, context first; None = the location has no __acl__ attribute.  A
@@ -27,7 +29,7 @@ Definition lineage := list (option acl).
 
 (* leaves of pyramid.util.is_nonstr_iter:  isinstance(v, str)  /  hasattr(v, '__iter__') *)
 Definition is_str (v : perms) : bool := match v with PStr _ => true | _ => false end.
-Definition has_iter (v : perms) : bool := match v with PAtom => false | _ => true end.
+Definition has_iter (v : perms) : bool := match v with PAtom | PEq _ => false | _ => true end.
 
 (* [p in s] on two str: substring test *)
 Fixpoint is_substr (p s : text) : bool :=
@@ -38,19 +40,21 @@ Inductive nperms := Wrapped (v : perms) | Self (v : perms).
 Definition normalise (isit : perms -> bool) (v : perms) : nperms := if isit v then Self v else Wrapped v.
 
 (* [permission in x] for a str permission p.  [allc] is AllPermissionsList.__contains__ (regenerated).
-   p in [v]      list membership is ==: a str equals only an equal str (AllPermissionsList.__eq__ is an
-                 isinstance test, every other object here compares unequal)
+   p in [v]      list membership is ==: a str equals an equal str, and an object whose own __eq__ says so (PEq);
+                 AllPermissionsList.__eq__ is an isinstance test, every other object here compares unequal
    p in 'str'    substring test;  p in iterable: some element == p;  p in ALL: __contains__
    p in <object without __iter__>: TypeError in Python -- answered false here; not reachable when [isit] is the
                  real is_nonstr_iter (normalise_never_self_atom in Proofs/C11.v) *)
 Definition contains (allc : text -> bool) (p : text) (n : nperms) : bool :=
   match n with
   | Wrapped (PStr s) => text_eqb p s
+  | Wrapped (PEq s) => text_eqb p s              (* str.__eq__ gives NotImplemented, the object's reflected __eq__ decides *)
   | Wrapped _ => false
   | Self (PStr s) => is_substr p s
   | Self (PNames l) => mem_text p l
   | Self PAll => allc p
   | Self PAtom => false
+  | Self (PEq _) => false                        (* TypeError as for PAtom; equally unreachable *)
   end.
 
 (* [permission in ace_permissions] after the normalisation idiom *)
